@@ -1,5 +1,5 @@
 From Coq Require Extraction ExtrOcamlBasic.
-From Wz Require Import lib.Bytes lib.Utf8 lib.ExtractBase C15.LibPercent C15.Gen C15.Model.
+From Wz Require Import lib.Bytes lib.Utf8 lib.ExtractBase C15.LibPercent C15.Gen C15.DispatchBase C15.GenDispatch C15.Model C15.BuilderModel.
 Extraction Language OCaml.
-Extraction "C15/model_extracted.ml" force_types quote quote_bytes unquote_rq i2u u2i current_uri wsgi_current_uri split_uri get_host tbytes wf_pct dispatch
+Extraction "C15/model_extracted.ml" force_types quote quote_bytes unquote_rq i2u u2i current_uri wsgi_current_uri split_uri get_host tbytes wf_pct builder_environ dispatch
   wsgi_encoding_dance wsgi_decoding_dance_replace.
